@@ -172,6 +172,17 @@ def validHist (isSet : Bool) (lt : α → α → Bool) (h : Het α κ) (cap : Na
   | _, [] => true
   | s, op :: ops => Spec.valid cap lt s op && validHist isSet lt h cap (Spec.step isSet lt h cap s op).1 ops
 
+/-- the same for extended histories (`XOp`) -/
+def xopOk (kind : Kind) : XOp α κ → Bool
+  | .base op => opOk kind op
+  | _ => true
+
+def xopsOk (kind : Kind) (ops : List (XOp α κ)) : Bool := ops.all (xopOk kind)
+
+def xvalidHist (isSet : Bool) (lt : α → α → Bool) (h : Het α κ) (e : Elem α) (cap : Nat) : St α → List (XOp α κ) → Bool
+  | _, [] => true
+  | s, op :: ops => Spec.xvalid cap lt s op && xvalidHist isSet lt h e cap (Spec.xstep isSet lt h e cap s op).1 ops
+
 
 /-! equation lemmas of the recursive definitions are generated here (not in Props.lean, where the
     audit would count them as obligations) -/
